@@ -160,7 +160,8 @@ ASSUME = ['fsync / power-loss durability belongs to SQLite and the OS; MySQL/Pos
 
 
 def main(argv):
-    return run_check('C15', [SqlCrashStream()], argv, trusted_base=TRUSTED, assumptions=ASSUME)
+    return run_check('C15', [SqlCrashStream()], argv, trusted_base=TRUSTED, assumptions=ASSUME,
+                     translated=('pin_sql',))
 
 
 if __name__ == '__main__':
